@@ -290,6 +290,9 @@ func (m Message) Bytes() []byte {
 	s.AddUint16(uint16(len(m.Additional)))
 	for _, v := range m.Question {
 		parts := strings.Split(strings.TrimSuffix(v.Name, "."), ".")
+		if len(parts) == 1 && parts[0] == "" { // root name
+			parts = nil
+		}
 		for _, p := range parts {
 			s.AddUint8LengthPrefixed(func(s *cryptobyte.Builder) {
 				s.AddBytes([]byte(p))
@@ -326,6 +329,10 @@ func (rr RR) Bytes() []byte {
 			s.AddBytes([]byte(data))
 		case string:
 			if rr.Type == 2 || rr.Type == 5 || rr.Type == 12 { // NS, CNAME, PTR
+				if data == "" { // root name
+					s.AddUint8(0)
+					return
+				}
 				for _, p := range strings.Split(data, ".") {
 					s.AddUint8LengthPrefixed(func(s *cryptobyte.Builder) {
 						s.AddBytes([]byte(p))
